@@ -137,6 +137,29 @@ def genConcat16 (seed : Nat) (maxLen : Nat) : Array String := Id.run do
       for a in repsOf (patBytes la sa) do
         for b in repsOf (patBytes lb (sb + 1)) do
           out := out.push s!"hex concat {a} {b}"
+      -- content classes: first byte below / at or above 0x80 on either side (sign bits of word-wise arithmetic), and
+      -- random bytes; every combination of the representations again
+      let (r', lo1) := rng.below 22
+      let (r', lo2) := r'.below 22
+      let (r', hi1) := r'.below 19
+      let (r', hi2) := r'.below 19
+      let mut r2 := r'
+      let mut ra : List UInt8 := []
+      let mut rb : List UInt8 := []
+      for _ in [0:la] do
+        let (r3, x) := r2.below 256
+        r2 := r3
+        ra := ra ++ [UInt8.ofNat x]
+      for _ in [0:lb] do
+        let (r3, x) := r2.below 256
+        r2 := r3
+        rb := rb ++ [UInt8.ofNat x]
+      rng := r2
+      for (ca, cb) in [(patBytes la lo1, patBytes lb (hi2 + 22)), (patBytes la (hi1 + 22), patBytes lb lo2),
+                       (patBytes la (hi1 + 22), patBytes lb (hi2 + 22)), (patBytes la lo1, patBytes lb lo2), (ra, rb)] do
+        for a in repsOf ca do
+          for b in repsOf cb do
+            out := out.push s!"hex concat {a} {b}"
       -- degenerate contents: all-zero / all-ones receivers and operands (an all-zero inline array looks "blank")
       for ba in (specialBytes la sa).drop 1 do
         for bb in [patBytes lb (sb + 1), List.replicate lb 0] do
